@@ -173,7 +173,7 @@ def evaluate(case: dict[str, Any]) -> Outcome:
                     real ^= a
             elif name == "difference_update":
                 mats = [_materialise(s) for s in op[1]]
-                akind = "+".join(s["kind"] for s in op[1]) or "none"
+                akind = f"{len(op[1])}-iterables"
                 used_oneshot |= any(s["kind"] in ("iter", "gen") for s in op[1])
                 used_multi |= len(op[1]) >= 2
                 rem = set()
@@ -226,7 +226,7 @@ def evaluate(case: dict[str, Any]) -> Outcome:
                     got = t == other
             elif name in PURE_ITERN:
                 mats = [_materialise(s) for s in op[1]]
-                akind = "+".join(s["kind"] for s in op[1]) or "none"
+                akind = f"{len(op[1])}-iterables"
                 used_oneshot |= any(s["kind"] in ("iter", "gen") for s in op[1])
                 used_multi |= len(op[1]) >= 2
                 t = target(op[2])
